@@ -316,19 +316,19 @@ var specs = map[string]Spec{
 		MaxSamples:  3,
 	},
 	"C10": {
-		ExtraEngine: "wire", ExtraRun: "^TestMuxEstablisher$", ExtraRace: true, ExtraShards: 9,
+		ExtraEngine: "wire", ExtraRun: "^(TestMuxEstablisher|TestMuxReceiver)$", ExtraRace: true, ExtraShards: 10,
 		Engine: "muxsim", Run: "^TestMux$", Race: true,
 		RaceViolation: regexp.MustCompile(`multiMuxManager\)\.(AddConnection|unregisterMux|GetMuxConnections|notifyChange|onClose)`),
 		QuickShards:   16, ThoroughShards: 16, QuickWatchdog: 10 * time.Minute, ThoroughWatchdog: 90 * time.Minute,
 		MaxProcs:    []int{16, 4, 2, 1},
 		Level:       "fault_enumeration",
 		LevelText:   "The real mux provider, multi-mux manager and managed sessions run over net.Pipe connections handed out by a scripted connection provider in virtual time. Every fault script over seven per-attempt outcomes (dial failure, peer closes at once, peer silent, yamux setup error, peer talks garbage, session dies later, session closed locally) up to a length bound for pool sizes 1-2 and random longer scripts for pools up to 4 are run to heal: the table may never exceed the limit (checked inside the manager's own list-update callback and at the peer), and 90 virtual seconds after the last fault the pool must be at full strength with the provider reporting no free slot, every slot carrying a stream. The lifetime is cancelled at the k-th occurrence of every provider step (before/after NewConnection, before/after session setup, before/after registration): afterwards the manager must report closed, no session may stay registered and every connection ever handed to the provider must have been closed.",
-		LevelNote:   "Fault and cancel positions are logical (k-th occurrence of a provider step) and enumerated; the thread interleaving around them is sampled under -race. The scripted provider consumes 3 ms of virtual time per attempt (a real dial/accept blocks; the provider retries without back-off). The real TCP establisher (dial with exponential back-off) is exercised by an extra pass of the wire engine (TestMuxEstablisher): the real GRPCMuxManager in mux-client role dials a harness listener that listens with a working yamux server, refuses, accepts-and-closes and kills sessions on a script; from accepts and connection ends alone the harness checks the limit, the refill to full strength, and after the lifetime ends: every connection closed, CloseChan within the establisher's own back-off bound, and no connection ever again - also not when a peer that was unreachable during shutdown comes back. The real TCP receiver is exercised by the C11/C15/C19 wire cases.",
+		LevelNote:   "Fault and cancel positions are logical (k-th occurrence of a provider step) and enumerated; the thread interleaving around them is sampled under -race. The scripted provider consumes 3 ms of virtual time per attempt (a real dial/accept blocks; the provider retries without back-off). The real TCP establisher (dial with exponential back-off) is exercised by an extra pass of the wire engine (TestMuxEstablisher): the real GRPCMuxManager in mux-client role dials a harness listener that listens with a working yamux server, refuses, accepts-and-closes and kills sessions on a script; from accepts and connection ends alone the harness checks the limit, the refill to full strength, and after the lifetime ends: every connection closed, CloseChan within the establisher's own back-off bound, and no connection ever again - also not when a peer that was unreachable during shutdown comes back. The real TCP receiver has its own part of that pass (TestMuxReceiver): harness peers dial MORE connections than the configured count, keep them queued, kill served and queued ones, and the lifetime is cancelled with peers queued; a peer is 'in' once its own yamux ping is answered. Never more than the count served or listed at once, the pool refills from the queue, after the lifetime ends every served session ends, CloseChan fires, and a later dial is refused or never served.",
 		Technique:   "runtime monitor + fault injection: scripted connection outcomes and cancellation at enumerated provider steps on the real provider/manager/session in virtual time; limit, permit-conservation, heal and everything-closed oracles; race detector on the session table",
 		DesignRef:   "DESIGN.md §4 C10",
 		Rule:        "cases = pool size x fault script [x cancel step kind x occurrence]; distinct = distinct (pool size, script, cancel point) tuples; all non-trivial",
 		Assumptions: []string{"net.Pipe + yamux in a synctest bubble; harness-side peers are yamux clients", "ConnectionWriteTimeout 2 s for the sessions built by the scripted session function"},
-		QuickFloors: map[string]int64{"scripts": 400, "healed_to_full_strength": 200, "cancel_points_hit": 100, "quiet_after_shutdown": 5, "full_strength_reached": 6},
+		QuickFloors: map[string]int64{"scripts": 400, "healed_to_full_strength": 200, "cancel_points_hit": 100, "quiet_after_shutdown": 5, "full_strength_reached": 12, "all_sessions_closed_after_shutdown": 4},
 		MaxSamples:  2,
 	},
 	"C09": {
